@@ -52,74 +52,75 @@ func runC18(c *Ctx) {
 
 	// ---------- R1 + R4 ----------
 	{
+		// the tokenizer is expanded at its call sites (whether it takes *string and writes the
+		// remainder back, or takes the string and returns the remainder)
 		g := NewGate(c.P)
-		g.Inline = inlineOnly()
+		g.Inline = inlineOnly(FuncName(tok))
 		s := g.Eval(nhr)
 		u := g.U
 		ps := g.ParamExprs(nhr)
 		text := ps[0]
-		// the cell handed to the tokenizer
-		var cell *E
-		var tokCalls []Effect
-		for _, ef := range s.Effects {
-			if ef.Kind == "call" && ef.Call.Aux == calleeName(tok) {
-				cell = ef.Call.Args[0]
-				tokCalls = append(tokCalls, ef)
+		var acts []*Summary
+		for _, sub := range g.Subs {
+			if sub.Fn == tok && sub.Parent == s {
+				acts = append(acts, sub)
 			}
 		}
+		scanned := func(sub *Summary) *E { return tokScanned(sub) }
+		token := func(sub *Summary) *E { return g.RetExpr(sub, 0) }
 		bad := ""
-		nCut := 0
-		if cell == nil {
+		if len(acts) == 0 {
 			bad = "UNDECIDED: the tokenizer is never called"
 		} else {
-			for _, ef := range s.Effects {
-				if ef.Kind != "store" || ef.Addr != cell || ef.Val == text {
-					continue
-				}
-				v := ef.Val
-				if v.Op != "slice" {
-					bad = "UNDECIDED: the text is rewritten by something that is not a slice: " + clip(u.Show(v), 80)
-					continue
-				}
-				nCut++
-				var idx *E
-				u.Mentions(v.Args[2], func(x *E) bool {
-					if x.Op == "call" && (x.Aux == "strings.IndexByte" || x.Aux == "strings.Index" || x.Aux == "strings.IndexRune") {
-						idx = x
-						return true
-					}
-					return false
-				})
-				switch {
-				case v.Args[0] != text:
-					bad = "the cut is not taken from the original line"
-				case v.Args[1] != nil && !isIntConst(v.Args[1], 0):
-					bad = "the cut does not start at the beginning of the line"
-				case idx == nil || idx.Args[0] != text:
-					bad = "the cut end is not derived from the index of the comment sign in the line"
-				default:
-					if d, ok := constDiff(u, idx, v.Args[2], idx); !ok || d != 0 {
-						// constDiff substitutes idx itself
-						bad = fmt.Sprintf("the tokenised text is line[:i%+d] for i the index of '#': the character before the comment sign is dropped unless it is a blank ('0.0.0.0 example.org#note' yields 'example.or')", d)
-					}
-					c0, isC := idx.Args[1].IntVal()
-					if sv, isS := idx.Args[1].StrVal(); isS && len(sv) == 1 {
-						c0, isC = int64(sv[0]), true
-					}
-					if !isC || c0 != '#' {
-						bad = "the comment sign searched for is not '#'"
-					}
-					// guard: cut iff found at a positive index
-					for _, iv := range []int64{-1, 1, 7} {
-						val, ok, _ := foldCond(u, ef.Cond, map[string]*E{idx.key: u.Int(iv)})
-						if !ok || val != (iv >= 1) {
-							bad = fmt.Sprintf("the comment is cut under the wrong condition (index %d: cut=%v)", iv, val)
+			// R1: what the first tokenizer call scans is the line, cut at '#' iff '#' is at a positive index
+			str1 := scanned(acts[0])
+			idx := u.LibCall("strings.IndexByte", types.Typ[types.Int], text, u.ConstVal(constantInt('#'), types.Typ[types.Uint8]))
+			found := u.ToBool(u.Lt(u.Int(0), idx))
+			want := u.ITE(found, u.Slice(text, nil, idx, nil, types.Typ[types.String]), text)
+			if str1 == nil {
+				bad = "UNDECIDED: the text handed to the tokenizer is not evaluated"
+			} else if ok, _ := semEqual(u, str1, want); !ok {
+				bad = "the tokenised text is not the line cut at the comment sign: " + clip(u.Show(str1), 100)
+				nCut := 0
+				for leaf, cond := range u.Leaves(str1) {
+					switch {
+					case leaf == text:
+					case leaf.Op == "slice" && leaf.Args[0] == text && leaf.Args[1] == nil && leaf.Args[2] != nil:
+						nCut++
+						var ix *E
+						u.Mentions(leaf.Args[2], func(x *E) bool {
+							if x.Op == "call" && (x.Aux == "strings.IndexByte" || x.Aux == "strings.Index" || x.Aux == "strings.IndexRune") {
+								ix = x
+								return true
+							}
+							return false
+						})
+						switch {
+						case ix == nil || ix.Args[0] != text:
+							bad = "the cut end is not derived from the index of the comment sign in the line"
+						default:
+							if d, ok := constDiff(u, ix, leaf.Args[2], ix); !ok || d != 0 {
+								bad = fmt.Sprintf("the tokenised text is line[:i%+d] for i the index of '#': the character before the comment sign is dropped unless it is a blank ('0.0.0.0 example.org#note' yields 'example.or')", d)
+							} else if sv, isS := ix.Args[1].StrVal(); !(isS && sv == "#") {
+								if c0, isC := ix.Args[1].IntVal(); !(isC && c0 == '#') {
+									bad = "the comment sign searched for is not '#'"
+								}
+							} else {
+								for _, iv := range []int64{-1, 1, 7} {
+									val, ok, _ := foldCond(u, cond, map[string]*E{ix.key: u.Int(iv)})
+									if !ok || val != (iv >= 1) {
+										bad = fmt.Sprintf("the comment is cut under the wrong condition (index %d: cut=%v)", iv, val)
+									}
+								}
+							}
 						}
+					default:
+						bad = "UNDECIDED: the text is rewritten by something that is not a prefix of the line: " + clip(u.Show(leaf), 80)
 					}
 				}
-			}
-			if nCut == 0 && bad == "" {
-				bad = "the comment is never stripped"
+				if nCut == 0 {
+					bad = "the comment is never stripped"
+				}
 			}
 		}
 		c.Check(bad == "", "C18.R1", "NewHostRule: comment cut is line[:index('#')]", nhr.Pos(), "slice of the original line ending exactly at the index of '#', taken iff the index is positive", bad)
@@ -163,15 +164,35 @@ func runC18(c *Ctx) {
 			l := innermostLoop(loops, inLoop.Ins.Block())
 			el := inLoop.Val.Args[len(inLoop.Val.Args)-1]
 			cont := contCond(u, s, l)
-			// cont must be: len(*cell) != 0, body unconditional, element = a tokenizer call on the cell
-			okEl := el.Op == "call" && el.Aux == calleeName(tok) && el.Args[0] == cell
-			okBody := inLoop.Cond == u.bdd.And(s.RC[l.Header], cont)
+			// cont must be: remainder != "", body unconditional, element = the token of the tokenizer
+			// activation in this loop, which scans the remainder
+			var actLoop *Summary
+			for _, sub := range acts {
+				if sub.Site != nil && l.Blocks[sub.Site.Block()] {
+					actLoop = sub
+				}
+			}
+			okEl := actLoop != nil && el == token(actLoop)
+			// the scans inside the tokenizer terminate: their control atoms are projected away
+			bodyCond := inLoop.Cond
+			for _, sub := range g.Subs {
+				if sub.Loops == 0 {
+					continue
+				}
+				if blk := topBlockOf(sub, sub.Fn.Blocks[0].Instrs[0]); blk == nil || !l.Blocks[blk] {
+					continue
+				}
+				for _, l2 := range loopsOf(sub.Fn) {
+					for _, v := range u.bdd.Support(contCond(u, sub, l2)) {
+						bodyCond = u.bdd.Exists(bodyCond, v)
+					}
+				}
+			}
+			okBody := bodyCond == u.bdd.And(s.RC[l.Header], cont)
 			okExit := onlyExhaustionExit(l)
 			okCont := false
-			for _, at := range u.AtomsOf(cont) {
-				if at.Op == "eq" && at.Args[0].Op == "len" && isIntConst(at.Args[1], 0) && u.bdd.Implies(cont, u.bdd.Not(u.Atom(at))) {
-					okCont = true
-				}
+			if actLoop != nil && scanned(actLoop) != nil {
+				okCont = cont == u.bdd.Not(u.ToBool(u.Eq(u.Len(scanned(actLoop)), u.Int(0))))
 			}
 			if !(okEl && okBody && okExit && okCont) {
 				bad = fmt.Sprintf("not every remaining token becomes a name (element is the next token=%v, appended in every iteration=%v, loop runs until the remainder is empty=%v, no early exit=%v)", okEl, okBody, okCont, okExit)
@@ -184,8 +205,8 @@ func runC18(c *Ctx) {
 		} else {
 			el := bare.Val.Args[len(bare.Val.Args)-1]
 			var first *E
-			if len(tokCalls) > 0 {
-				first = tokCalls[0].Call
+			if len(acts) > 0 {
+				first = token(acts[0])
 			}
 			var isDom Ref = False
 			for _, at := range u.AtomsOf(bare.Cond) {
@@ -217,12 +238,16 @@ func runC18(c *Ctx) {
 		s := g.Eval(tok)
 		u := g.U
 		p := g.ParamExprs(tok)[0]
-		str := u.mk("load", "", types.Typ[types.String], p)
-		// the string is *ps loaded once
-		for _, in := range tok.Blocks[0].Instrs {
-			if ld, ok := in.(*ssa.UnOp); ok && s.Env[ld] != nil && s.Env[ld].Typ != nil && isStringT(s.Env[ld].Typ) {
-				str = s.Env[ld]
-				break
+		_, byPointer := tok.Params[0].Type().Underlying().(*types.Pointer)
+		str := p // the remainder is passed and returned by value
+		if byPointer {
+			str = u.mk("load", "", types.Typ[types.String], p)
+			// the string is *ps loaded once
+			for _, in := range tok.Blocks[0].Instrs {
+				if ld, ok := in.(*ssa.UnOp); ok && s.Env[ld] != nil && s.Env[ld].Typ != nil && isStringT(s.Env[ld].Typ) {
+					str = s.Env[ld]
+					break
+				}
 			}
 		}
 		type scan struct {
@@ -263,10 +288,14 @@ func runC18(c *Ctx) {
 		}
 		res := g.RetExpr(s, 0)
 		var rem *E
-		for _, ef := range s.Effects {
-			if ef.Kind == "store" && ef.Addr == p {
-				rem = ef.Val
+		if byPointer {
+			for _, ef := range s.Effects {
+				if ef.Kind == "store" && ef.Addr == p {
+					rem = ef.Val
+				}
 			}
+		} else if tok.Signature.Results().Len() == 2 {
+			rem = g.RetExpr(s, 1)
 		}
 		wantStay := []bool{true, false, true} // blanks, non-blanks, blanks
 		names := []string{"skip leading blanks", "take the token", "skip blanks after the token"}
@@ -493,4 +522,22 @@ func tokenizerRole(p *Prog, nhr *ssa.Function) *ssa.Function {
 		}
 	})
 	return tok
+}
+
+// tokScanned: the string a tokenizer activation scans: its string parameter,
+// or what its *string parameter points at on entry.
+func tokScanned(sub *Summary) *E {
+	if sub == nil || len(sub.Fn.Params) == 0 {
+		return nil
+	}
+	p := sub.Fn.Params[0]
+	if _, isPtr := p.Type().Underlying().(*types.Pointer); !isPtr {
+		return sub.Env[p]
+	}
+	for _, in := range sub.Fn.Blocks[0].Instrs {
+		if ld, ok := in.(*ssa.UnOp); ok && ld.X == ssa.Value(p) {
+			return sub.Env[ld]
+		}
+	}
+	return nil
 }
